@@ -197,34 +197,60 @@ def run(ctx):
     if "serde" not in fb.features:
         chk.note("R12.3 skipped: this build configuration does not enable the serde feature")
         return
-    ser = fb.find_bodies(lambda b: b["kind"] == "Fn" and b["path"].endswith("expression::serde::serialize"))
+    from analysis.interp import Interp, Policy, Sym, App, Variant, show
+
+    class PS(Policy):
+        """helpers of the serde module are inlined: where the call sits does not matter"""
+        max_depth = 4
+
+        def inline(self, fn, args, interp, path):
+            return fn.get("path", "").startswith("expression::serde::")
+    ser = fb.find_bodies(lambda b: b["kind"] == "AssocFn" and b.get("name") == "serialize" and (b.get("impl_trait") or "") == "serde::Serialize"
+                         and "flat::FlatEx" in (b.get("impl_self_ty") or ""))
     if len(ser) != 1:
-        chk.violation("R12.3", "anchor:serialize", "serde::serialize helper not found (feature serde)")
+        chk.violation("R12.3", "anchor:serialize", "impl Serialize for FlatEx not found (feature serde)")
     else:
-        org = dom.Origins(ser[0])
-        calls = [(mir.callee_path(t), [org.op_term(a) for a in t["args"]]) for _, t in mir.calls(ser[0])]
-        ss = [c for c in calls if c[0] == "serde::Serializer::serialize_str"]
-        if len(ss) == 1 and re.match(r"^expression::Express::unparse\(param:\w+\)$", ss[0][1][1]):
-            chk.ok("R12.3", "Serialize emits unparse() as a string", ss[0][1][1], loc(ser[0]["span"]))
+        ps = [p for p in Interp(fb, PS()).run(ser[0], [Sym("self_"), Sym("serializer")]) if p.status != "unreachable"]
+        good = bool(ps)
+        why = ""
+        for p in ps:
+            calls = [e for e in p.events if e[0] == "call" and e[1] == "serde::Serializer::serialize_str"]
+            if p.status != "return" or len(calls) != 1 or show(calls[0][2][1]) != "expression::Express::unparse(self_)" or \
+                    not (isinstance(p.result, App) and p.result.fn == "serde::Serializer::serialize_str" and show(p.result.args[1]) == "expression::Express::unparse(self_)"):
+                good = False
+                why = "%s: %s" % (p.status, show(p.result)[:120] if p.result is not None else p.note)
+        if good:
+            chk.ok("R12.3", "Serialize emits unparse() as a string", "%d path(s)" % len(ps), loc(ser[0]["span"]))
         else:
-            chk.violation("R12.3", "serialize", "serialization does not emit unparse() unchanged: %s" % calls[:3], loc(ser[0]["span"]))
+            chk.violation("R12.3", "serialize", "serialization does not emit unparse() of the expression unchanged: %s" % why, loc(ser[0]["span"]))
     vis = fb.find_bodies(lambda b: b["kind"] == "AssocFn" and b.get("name") in ("visit_str", "visit_borrowed_str") and "FlatExVisitor" in (b.get("impl_self_ty") or ""))
     nv = 0
     for b in vis:
-        org = dom.Origins(b)
-        ok = False
-        for _, t in mir.calls(b):
-            f = t["func"]
-            if f.get("k") == "fndef" and f["name"] == "parse" and (f.get("trait") or "").endswith("Express"):
-                sk = f.get("self_kind") or {}
-                arg = org.op_term(t["args"][0])
-                if sk.get("path", "").endswith("flat::FlatEx") and sk.get("args") == ["T", "OF", "LMF"] and re.match(r"^param:\w+$", arg):
-                    ok = True
+        ps = [p for p in Interp(fb, PS()).run(b, [Sym("self_"), Sym("text")]) if p.status != "unreachable"]
+        ok = bool(ps) and all(p.status == "return" for p in ps)
+        n_ok = 0
+        for p in ps:
+            if p.status != "return":
+                continue
+            r = p.result
+            if isinstance(r, Variant) and r.variant == "Err":
+                continue
+            # the returned value is (the Ok payload of) parse(text), FlatEx being the Self type of the resolved parse
+            n_ok += 1
+            parses = [e for e in p.events if e[0] == "call" and e[1] == "expression::Express::parse"]
+            if len(parses) != 1 or show(parses[0][2][0]) != "text" or not ((parses[0][5] or {}).get("self_kind") or {}).get("path", "").endswith("flat::FlatEx"):
+                ok = False
+                continue
+            s = show(r)
+            if s not in ("Result::Ok{0: .0(as:Ok(expression::Express::parse(text)))}", "Result::Ok{0: ok(expression::Express::parse(text))}") and \
+                    not re.match(r"^std::result::Result::<T, E>::map_err\(expression::Express::parse\(text\), closure<\{closure#\d+\}>\)$", s):
+                ok = False
+        ok = ok and n_ok >= 1
         nv += 1
         if ok:
-            chk.ok("R12.3", "%s parses the visited string with FlatEx<T,OF,LMF>" % b["name"], "", loc(b["span"]))
+            chk.ok("R12.3", "%s returns FlatEx::parse of the visited string" % b["name"], "", loc(b["span"]))
         else:
-            chk.violation("R12.3", "visitor:%s" % b["name"], "%s does not parse the visited string unchanged with the impl's own type parameters" % b["name"], loc(b["span"]))
+            chk.violation("R12.3", "visitor:%s" % b["name"], "%s does not return the parse of the visited string unchanged: %s" % (b["name"], [show(p.result)[:100] for p in ps][:3]), loc(b["span"]))
     chk.floor("R12.3", "visitor methods", nv, 2)
 
 
